@@ -129,6 +129,14 @@ theorem writes_into_storage_coherent (allowNew : Bool) (observed t : M) (hc : Co
         exact ⟨bs, dv, ns, kids, kids', rfl, by rw [if_pos (by simpa using h)], h.2⟩
       · simp at hok
 
+/-- `select(*keys, inplace=True)` seen on the metadata (which entries remain is C04's subject, `select_refines`): whatever it
+selected, if the remaining entries are entries that were there — same key, batch size, device and names at every depth
+(`shrinksK`; the order is free) — the tree stays coherent and the node keeps its batch size. The check sends the state
+observed after every such call (accepted or raising) through `selectInM`. -/
+theorem select_in_place_coherent (observed t : M) (hc : Coherent t) :
+    Coherent (selectInM observed t).1 ∧ (selectInM observed t).1.shape = t.shape :=
+  ⟨(selectInM_spec observed t hc).2.2, (selectInM_spec observed t hc).1⟩
+
 /-! ## one step -/
 
 /-- the value of a `set` is itself a coherent tensor / tensordict (what the constructors deliver) -/
@@ -147,7 +155,7 @@ def InScope (t : M) : Op → Prop
   | _ => True
 
 /-- THE PROPERTY, one step: for every modelled operation — set, batch_size, names, del_, rename_key_, create_nested, clear,
-pop, popitem, setdefault, refine_names, update with dict or tensordict payloads, exclude / flatten_keys / unflatten_keys in place,
+pop, popitem, setdefault, refine_names, update with dict or tensordict payloads, exclude / flatten_keys / unflatten_keys / select in place,
 auto_batch_size_, and the writes into existing storage (set_, set_at_, update_, update_at_, `td[index] = value`) through their envelope — issued on the root or through any nested handle, and for EVERY outcome (accepted or raising, partial
 effects included): a coherent tree stays coherent. `ValOk`: the written value is itself a coherent tensor / tensordict;
 `InScope`: the property's documented exclusion (a child resized through a direct handle below its parent's batch size).
@@ -177,6 +185,7 @@ theorem step_coherent (t : M) (hc : Coherent t) (op : Op) (hv : ValOk op) (hs : 
   | update h items => exact (atPath_keeps _ (fun n hn => updateC_spec _ items n hn) h t hc).2.2
   | updateTd h m => exact (atPath_keeps _ (fun n hn => updateTdM_spec m n hn hv) h t hc).2.2
   | write h an obs => exact (atPath_keeps _ (fun n hn => writeM_spec an obs n hn) h t hc).2.2
+  | selectIn h obs => exact (atPath_keeps _ (fun n hn => selectInM_spec obs n hn) h t hc).2.2
   | excludeIn h keys => exact (atPath_keeps _ (fun n hn => excludeM_spec keys n hn) h t hc).2.2
   | flattenIn h sep => exact (atPath_keeps _ (fun n hn => flattenM_spec sep n hn) h t hc).2.2
   | unflattenIn h sep => exact (atPath_keeps _ (fun n hn => unflattenM_spec sep n hn) h t hc).2.2
